@@ -80,6 +80,7 @@ type SpecFunc struct {
 	Reads  []string // heap components the body may read (become implicit parameters)
 	Macro  bool // expanded at the call site (may read the heap of the calling context)
 	Ghost  bool // ghost state: a heap component indexed by the (reference of the) argument
+	Triggered bool // defined by an axiom f(args) == body with trigger f(args) instead of being inlined (keeps terms and triggers small)
 	Pkg    string
 	File   string
 	Line   int
@@ -106,7 +107,7 @@ type SpecFile struct {
 	Axioms    []*Axiom
 }
 
-var kwRe = regexp.MustCompile(`^(purepkg|pure|instantiate|opaque|uses|manual|keeps|macro|ghost|func|requires|ensures|assigns|invariant|loop|behaviour|behavior|spec|axiom|lemma|decreases|inline|trusted|overflow|nopanic|props|panics|assert|rec)\b`)
+var kwRe = regexp.MustCompile(`^(triggered|purepkg|pure|instantiate|opaque|uses|manual|keeps|macro|ghost|func|requires|ensures|assigns|invariant|loop|behaviour|behavior|spec|axiom|lemma|decreases|inline|trusted|overflow|nopanic|props|panics|assert|rec)\b`)
 
 var readsRe = regexp.MustCompile(`\s+reads\s*\{([^}]*)\}\s*`)
 
@@ -327,10 +328,15 @@ func ParseSpecFile(path, pkg string) (*SpecFile, error) {
 			default:
 				return nil, fail("loop clause must be invariant or decreases")
 			}
-		case "spec", "rec", "macro":
+		case "spec", "rec", "macro", "triggered":
 			rec := false
+			triggered := false
 			if kw == "rec" {
 				rec = true
+				rest = strings.TrimSpace(strings.TrimPrefix(rest, "spec"))
+			}
+			if kw == "triggered" {
+				triggered = true
 				rest = strings.TrimSpace(strings.TrimPrefix(rest, "spec"))
 			}
 			var reads []string
@@ -348,7 +354,7 @@ func ParseSpecFile(path, pkg string) (*SpecFile, error) {
 			if err != nil {
 				return nil, fail("%v", err)
 			}
-			s := &SpecFunc{Name: m[1], Params: ps, Ret: m[3], Pkg: pkg, File: path, Line: it.no, Text: rest, Rec: rec, Macro: kw == "macro", Reads: reads}
+			s := &SpecFunc{Name: m[1], Params: ps, Ret: m[3], Pkg: pkg, File: path, Line: it.no, Text: rest, Rec: rec, Macro: kw == "macro", Reads: reads, Triggered: triggered}
 			if m[4] != "" {
 				e, err := parseSpecExpr(m[4])
 				if err != nil {
